@@ -319,7 +319,7 @@ static void cmd_inc(int nt, char **t)
 /* ---------------- printbuf (C19) ----------------
  * PB new | free | reset
  * PB app   <a|r> <arg> <seed>      printbuf_memappend of n bytes; a: n = arg, r: n = (size - bpos) + arg (clamped at 0)
- * PB fast  <a|r> <arg> <seed>      printbuf_memappend_fast
+ * PB fast  <a|r|p> <arg> <seed>    printbuf_memappend_fast (fastu: with a size_t length); p: n such that bpos + n + 1 = arg/1000 of the current capacity
  * PB str   <k>                     printbuf_strappend of the k-th fixed literal
  * PB appx  <size> <srclen>         printbuf_memappend(size) from a source block of only srclen bytes (must-refuse arguments)
  * PB set   <a|b|s|m> <arg> <ch> <la|lr> <len>   printbuf_memset; offset: a absolute, b bpos+arg, s size+arg, m -1; len: la absolute, lr (size - offset) + len
@@ -359,15 +359,18 @@ static void cmd_pb(int nt, char **t)
 	if (!PB) { ob_puts(&out, "! no printbuf"); return; }
 	if (!strcmp(op, "free")) { printbuf_free(PB); PB = NULL; ob_puts(&out, "= freed"); return; }
 	if (!strcmp(op, "reset")) { printbuf_reset(PB); pb_term_defined = 1; pb_state(0, 0, 0, 0); return; }
-	if (!strcmp(op, "app") || !strcmp(op, "fast") || !strcmp(op, "fmt")) {
+	if (!strcmp(op, "app") || !strcmp(op, "fast") || !strcmp(op, "fastu") || !strcmp(op, "fmt")) {
 		long arg = L(t[3]); unsigned seed = (unsigned)UL(t[4]); unsigned char *src; int alpha = !strcmp(op, "fmt");
 		if (nt < 5) { ob_puts(&out, "! PB args"); return; }
 		/* relative sizes fill the buffer to its capacity, i.e. force a doubling each time: stop doing that once the buffer is large */
 		n = (t[2][0] == 'r' && PB->size <= 8192) ? (long)(PB->size - PB->bpos) + arg : arg;
+		/* p: the operation needs arg/1000 of the CURRENT capacity in total (contents + new bytes + terminator), whatever the capacity is */
+		if (t[2][0] == 'p') n = (long)((double)PB->size * (double)arg / 1000.0) - PB->bpos - 1;
 		if (n < 0) n = 0;
 		src = (unsigned char *)malloc((size_t)n + 1); fill_pattern(src, n, seed, alpha); src[n] = 0;
 		errno = 0;
 		if (!strcmp(op, "app")) { unsigned char *ex = (unsigned char *)malloc(n ? (size_t)n : 1); memcpy(ex, src, (size_t)n); r = printbuf_memappend(PB, (char *)ex, (int)n); e = errno; free(ex); }
+		else if (!strcmp(op, "fastu")) { unsigned char *ex = (unsigned char *)malloc(n ? (size_t)n : 1); size_t un = (size_t)n; memcpy(ex, src, (size_t)n); printbuf_memappend_fast(PB, (char *)ex, un); r = (int)n; e = errno; free(ex); }   /* the macro with an unsigned length, as in printbuf_memappend_fast(pb, s, strlen(s)) */
 		else if (!strcmp(op, "fast")) { unsigned char *ex = (unsigned char *)malloc(n ? (size_t)n : 1); memcpy(ex, src, (size_t)n); printbuf_memappend_fast(PB, (char *)ex, (int)n); r = (int)n; e = errno; free(ex); }
 		else { r = sprintbuf(PB, "%s", (char *)src); e = errno; }
 		free(src);
@@ -397,6 +400,7 @@ static void cmd_pb(int nt, char **t)
 		switch (t[2][0]) { case 'b': off = PB->bpos + arg; break; case 's': off = (PB->size <= 8192 ? PB->size : PB->bpos) + arg; break; case 'm': off = -1; break; default: off = arg; }
 		o2 = off == -1 ? PB->bpos : off;
 		if (t[5][1] == 'r') { if (PB->size <= 8192) len = (long)PB->size - o2 + len; if (len < 0) len = 0; }
+		if (t[5][1] == 'p') { len = (long)((double)PB->size * (double)len / 1000.0) - o2; if (len < 0) len = 0; }   /* the fill ends at len/1000 of the current capacity */
 		errno = 0; r = printbuf_memset(PB, (int)off, ch, (int)len); e = errno;
 		if (r == 0) pb_term_defined = 0;
 		pb_state(r, e, len, off); return;
